@@ -7,6 +7,7 @@
 package chand
 
 import (
+	"io"
 	"bytes"
 	"context"
 	"encoding/json"
@@ -68,6 +69,54 @@ func (l *logger) log(e Event) {
 }
 
 var kinds = []string{"msg", "not", "req", "resp"}
+
+// tap records what a TCP transport writes (plain JSON, also under TLS), in order.
+type tap struct {
+	mu  sync.Mutex
+	buf bytes.Buffer
+	s   io.Writer
+	r   io.Writer
+}
+
+type tapWriter struct{ t *tap }
+
+func (w tapWriter) Write(b []byte) (int, error) {
+	w.t.mu.Lock()
+	w.t.buf.Write(b)
+	w.t.mu.Unlock()
+	return len(b), nil
+}
+
+func newTap() *tap {
+	t := &tap{r: io.Discard}
+	t.s = tapWriter{t}
+	return t
+}
+func (t *tap) SendWriter() *io.Writer    { return &t.s }
+func (t *tap) ReceiveWriter() *io.Writer { return &t.r }
+
+// afterTerminal counts the non-session envelopes written after a finished / failed session envelope.
+func (t *tap) afterTerminal() int {
+	t.mu.Lock()
+	data := append([]byte(nil), t.buf.Bytes()...)
+	t.mu.Unlock()
+	dec := json.NewDecoder(bytes.NewReader(data))
+	over, n := false, 0
+	for {
+		var m map[string]interface{}
+		if err := dec.Decode(&m); err != nil {
+			return n
+		}
+		st, _ := m["state"].(string)
+		if st == "finished" || st == "failed" {
+			over = true
+			continue
+		}
+		if over && st == "" {
+			n++
+		}
+	}
+}
 
 func payload(mode string, rng *rand.Rand) string {
 	if mode == "big" && rng.Intn(3) == 0 {
@@ -232,6 +281,7 @@ func Run(c Case) int {
 	stallRelease := make(chan struct{})
 	smux := mkMuxStall(l, delay, cfg.Stall, stallEntered, stallRelease)
 	var bl lime.BoundListener
+	var srvTap *tap
 	var dial func(ctx context.Context) (lime.Transport, error)
 	var srv *lime.Server
 	lasDone := make(chan error, 1)
@@ -244,8 +294,10 @@ func Run(c Case) int {
 			bl = lime.NewBoundListener(lime.NewInProcessTransportListener(ia), ia)
 			dial = func(ctx context.Context) (lime.Transport, error) { return lime.DialInProcess(ia, cfg.Buffer+1) }
 		case "tcp", "tls":
-			tc := &lime.TCPConfig{}
-			cc := &lime.TCPConfig{}
+			// a read limit that every envelope fits in and the traffic as a whole exceeds many times over
+			srvTap = newTap()
+			tc := &lime.TCPConfig{ReadLimit: 72 * 1024, TraceWriter: srvTap}
+			cc := &lime.TCPConfig{ReadLimit: 72 * 1024}
 			if cfg.Transport == "tls" {
 				tc.TLSConfig, cc.TLSConfig = hs.ServerTLS, hs.ClientTLS
 			}
@@ -527,6 +579,29 @@ func Run(c Case) int {
 	}
 	if ini == "S" && !lime.VerifTransport(sc).Connected() {
 		l.log(Event{K: "conn", G: "S"})
+	}
+	// C06: nothing but session envelopes on the terminating server's wire after its terminal envelope
+	if srvTap != nil && ini == "S" {
+		l.log(Event{K: "wire", G: "S", N: srvTap.afterTerminal()})
+	}
+	// C06: once the session is over, the send operations of both sides fail. (Idle sessions only, where
+	// the terminal envelope has certainly reached the observer: during traffic over a socket it may
+	// never be told, F-C13-7.)
+	if !cfg.Busy && cfg.Stall == "" {
+		late := func(name string, sd sender, _ func() lime.SessionState) {
+			for _, kind := range kinds {
+				lctx, lcancel := context.WithTimeout(context.Background(), 300*time.Millisecond)
+				err := sendOne(lctx, sd, kind, name+".late", 1, "x")
+				lcancel()
+				res := "err"
+				if err == nil {
+					res = "ok"
+				}
+				l.log(Event{K: "latesend", G: name, Kind: kind, Res: res})
+			}
+		}
+		late("C", cc, cc.State)
+		late("S", sc, sc.State)
 	}
 	// the observer closes its channel; then nothing of the session may be left
 	_ = cc.Close()
